@@ -20,6 +20,7 @@ FLOOR = {"quick": 1000, "thorough": 15000}
 REQUIRED_MONITORS = ("equivalence", "no_conflict", "provenance")
 ASSUMPTIONS = ["both sides of the comparison are produced by the real code from the same triple in the same process",
                "'resolve to S' for a decision whose S-diff is empty means keep base there"]
+OPTIMIZED_SHARDS = (0,)
 NSHARDS = 16
 CONFLICT_CLASSES = ["same_line", "same_output", "same_meta_key", "del_vs_edit", "both_insert_similar", "both_insert_dissimilar",
                     "multi_line_meta", "same_attachment", "nbmeta_conflict", "out_meta_conflict", "both_append_outputs", "exec_count",
